@@ -11,4 +11,9 @@ require (
 
 require golang.org/x/exp v0.0.0-20240404231335-c0f41cb1a7a0
 
+require (
+	github.com/segmentio/fasthash v1.0.3 // indirect
+	github.com/zyedidia/generic v1.2.1 // indirect
+)
+
 replace mltwist => /repo
